@@ -333,6 +333,7 @@ REGISTRY = {
         'sections': [{'name': 'depth', 'run': values_sec('depth_section')},
                      {'name': 'tokens', 'run': values_sec('tokens_section', limits=True)},
                      {'name': 'reader', 'run': values_sec('reader_section', mode='c11')},
+                     {'name': 'depth-monotone', 'run': values_sec('depth_monotone_section')},
                      {'name': 'mix', 'run': values_sec('mix_section')}],
         'trusted': VALUE_TRUSTED,
         'rule': 'container trees with unique leaves x depth in {0..height+2, None}',
